@@ -33,4 +33,10 @@ META = {
         note="Trusts refcodec.Frame (40 lines) and the reference type resolver; payload bytes of leniently decoded fixed-width values and of the known-risk Address classes are not observable and only their Length is compared.",
         technique="runtime differential monitor: decoder output vs reference framer walking by declared length",
     ),
+    "C05": dict(
+        text="Exploration with small exhaustive parts: every split into at most three reads and every truncation point of short streams, every declared length 0..19, and thousands of random fragmentations of long streams per run, each decided by comparing the messages returned with the messages sent and by a byte-exact consumption counter on the source.",
+        design_ref="DESIGN.md section 4, C05",
+        note="The in-memory transport replaces the kernel socket (one Read returns at most one scripted fragment); loopback TCP in the thorough tier. A wall-clock watchdog around the connection variant can only yield INCONCLUSIVE.",
+        technique="runtime monitor: sent-vs-delivered sequence oracle and consumed-byte counter under scripted fragmentation",
+    ),
 }
